@@ -19,6 +19,9 @@ let bit (r : bool res) = match r with
 let short (f : 'a -> string) (r : 'a res) = match r with
   | Ok a -> f a | Err _ -> "E" | Panic _ -> "P" | OutOfFuel -> "H"
 
+(* a path field "!<hex>" is a path that is not valid UTF-8 (the harness builds it from raw bytes) *)
+let is_raw (p : string) = S.length p > 0 && p.[0] = '!'
+
 let k s = L.map n_of_int (L.map Char.code (L.of_seq (S.to_seq s)))
 
 (* stream glob: fields = [hex Files value; hex path ...] *)
@@ -27,7 +30,9 @@ let glob (fs : string list) : string =
   let pat = str_of_hex (L.hd fs) in
   let para = [ (k "Files", pat); (k "Copyright", k "c"); (k "License", k "l") ] in
   match Copyright.ly_files_para v para with
-  | Ok fp -> "m=" ^ cat "" (L.map (fun p -> bit (Copyright.ly_matches v fp (str_of_hex p))) (L.tl fs))
+  | Ok fp -> "m=" ^ cat "" (L.map (fun p ->
+      if is_raw p then bit (Copyright.ly_matches_nonutf8 fp)
+      else bit (Copyright.ly_matches v fp (str_of_hex p))) (L.tl fs))
   | _ -> "ERR"
 
 let ll_fp_s (p : (BinNums.coq_N list * BinNums.coq_N list) list) =
@@ -43,7 +48,7 @@ let copyright (fs : string list) : string =
   let text = str_of_hex (L.nth fs 0) in
   let kk = int_of_string (L.nth fs 1) in
   let rest = drop 2 fs in
-  let paths = L.map str_of_hex (take kk rest) in
+  let paths = L.map (fun p -> if is_raw p then None else Some (str_of_hex p)) (take kk rest) in
   let names = L.map str_of_hex (drop kk rest) in
   let rx = match Copyright.ll_from_str_relaxed text with
     | Ok (_, n) -> string_of_int (int_of_nat n)
@@ -60,9 +65,14 @@ let copyright (fs : string list) : string =
           opt_hex (Copyright.ll_lp_name v p) ^ "~" ^ opt_hex (Copyright.ll_lp_text p) ^ "~" ^
           short lic_s (Copyright.ll_lp_license p)) (Copyright.ll_iter_licenses v d)) in
       let lq = cat ";" (L.map (fun path ->
-          let bits = cat "" (L.map (fun p -> bit (Copyright.ll_matches v p path)) files) in
-          let ff = short (function None -> "-" | Some (_, p) -> ll_fp_s p) (Copyright.ll_find_files v d path) in
-          let fl = short opt_lic_s (Copyright.ll_find_license_for_file v d path) in
+          let m, f, l = match path with
+            | Some path -> (fun p -> Copyright.ll_matches v p path), Copyright.ll_find_files v d path,
+                           Copyright.ll_find_license_for_file v d path
+            | None -> Copyright.ll_matches_nonutf8, Copyright.ll_find_files_nonutf8 v d,
+                      Copyright.ll_find_license_for_file_nonutf8 v d in
+          let bits = cat "" (L.map (fun p -> bit (m p)) files) in
+          let ff = short (function None -> "-" | Some (_, p) -> ll_fp_s p) f in
+          let fl = short opt_lic_s l in
           bits ^ "/" ^ ff ^ "/" ^ fl) paths) in
       let ln = cat ";" (L.map (fun n -> short opt_lic_s (Copyright.ll_find_license_by_name v d n)) names) in
       Printf.sprintf "ll=OK|lf=%s|ls=%s|lq=%s|ln=%s" lf ls lq ln in
@@ -73,9 +83,14 @@ let copyright (fs : string list) : string =
     | Ok c ->
       let files = c.Copyright.c_files in
       let yq = cat ";" (L.map (fun path ->
-          let bits = cat "" (L.map (fun fp -> bit (Copyright.ly_matches v fp path)) files) in
-          let ff = short (function None -> "-" | Some (i, _) -> string_of_int (int_of_nat i)) (Copyright.ly_find_files v c path) in
-          let fl = short opt_lic_s (Copyright.ly_find_license_for_file v c path) in
+          let m, f, l = match path with
+            | Some path -> (fun fp -> Copyright.ly_matches v fp path), Copyright.ly_find_files v c path,
+                           Copyright.ly_find_license_for_file v c path
+            | None -> Copyright.ly_matches_nonutf8, Copyright.ly_find_files_nonutf8 c,
+                      Copyright.ly_find_license_for_file_nonutf8 c in
+          let bits = cat "" (L.map (fun fp -> bit (m fp)) files) in
+          let ff = short (function None -> "-" | Some (i, _) -> string_of_int (int_of_nat i)) f in
+          let fl = short opt_lic_s l in
           bits ^ "/" ^ ff ^ "/" ^ fl) paths) in
       let yn = cat ";" (L.map (fun n -> opt_lic_s (Copyright.ly_find_license_by_name c n)) names) in
       Printf.sprintf "ly=OK|yc=%d.%d|yq=%s|yn=%s" (L.length files) (L.length c.Copyright.c_licenses) yq yn in
